@@ -242,10 +242,20 @@ Fixpoint pairwise_same (lay : layout) (mods : list dotted) (me : option dotted) 
   | _, _ => false
   end.
 
+(* from __future__ imports must precede every other statement: no future import after another import *)
+Fixpoint future_first (seen_other : bool) (l : list info) : bool :=
+  match l with
+  | [] => true
+  | i :: r => if is_empty i then future_first seen_other r
+              else if is_future i then negb seen_other && future_first seen_other r
+              else future_first true r
+  end.
+
 Definition predicts_semantic (c : case) : bool :=
   match run_model c with
   | None => false
   | Some (l, us) =>
+      (future_first false (map s_info (c_stmts c)) && negb (future_first false (map s_info l))) ||
       let ex := map (fun n => [n]) (c_exported c) in
       (* the primaries rope's finder does not see are not renamed *)
       let extra := c_hidden c in
